@@ -77,7 +77,9 @@ def c02(tier, seed):
     _uci_boards(c, res)
     for k in ["class:castleK", "class:castleQ", "class:ep", "class:promo", "class:promo-capture", "class:rook-captured-at-home"]:
         c.require(k, 300 if q else 20000)
+    c.counters["uci-replay-sessions:king-leaves-home-along-back-rank"] = sum(1 for r_ in res if r_["tag"].startswith("replay-king-leaves-home"))
     c.require("uci-printboard-fens-compared", 150)
+    c.require("uci-replay-sessions:king-leaves-home-along-back-rank", 3)
     return c.finish()
 
 
@@ -110,11 +112,13 @@ def c04(tier, seed):
     q = tier == "quick"
     c = _api("C04", tier, seed, "asan" if q else "rel", games=160 if q else 60000, plies=150, synth=4000 if q else 1500000, timeout=5400)
     c.rule = ("incremental key == key of Position(fen) after every move/null move; process-wide maps position(FEN fields 1-4)<->key "
-              "and pawn placement<->pawn key; shuffle games on sparse positions force transpositions (revisits counted); "
-              "non-trivial = distinct positions")
+              "and pawn placement<->pawn key; shuffle games on sparse positions force transpositions (revisits counted); every "
+              "16th position: all siblings sharing its placement (2 sides x admissible rights subsets x admissible ep squares) get "
+              "pairwise different keys; non-trivial = distinct positions")
     c.assumptions = API_ASSUME + ["injectivity is 'no collision observed', all a 64-bit key allows"]
     c.require("revisits", 20000 if q else 1000000)
     c.require("distinct-positions", 100000 if q else 3000000)
+    c.require("sibling-positions", 50000 if q else 1000000)
     return c.finish()
 
 
@@ -126,6 +130,7 @@ def c07(tier, seed):
               "(position, occurrence count, clock>=100) triples")
     c.assumptions = API_ASSUME + ["games shorter than 800 positions (longer games are C10's business)"]
     c.require("synth:only-ep-evasion", 40)
+    c.require("synth:corner-rook-captured-by-promoting-pawn", 100)
     for k, n in [("true:is_in_check", 500), ("true:is_checkmate", 100), ("true:is_stalemate", 30), ("true:is_repeated", 500),
                  ("true:threefold_repetition", 200), ("true:rule50", 200)]:
         c.require(k, n)
@@ -173,11 +178,20 @@ def c18(tier, seed):
     q = tier == "quick"
     c = _api("C18", tier, seed, "asan" if q else "rel", games=60 if q else 25000, plies=150, synth=20000 if q else 8000000, timeout=5400)
     c.rule = ("PolyglotBook::hash vs the published algorithm on a golden Random64[781]; every ply of games + synthetic positions "
-              "(half of them ep-matrix); non-trivial = distinct positions with an ep square or castling rights")
+              "(half of them ep-matrix); the key of the same Position object again after each legal move was made and taken back "
+              "(all moves where an ep square exists, every 8th position otherwise); UCI sessions with a one-key book written under "
+              "the root's spec key (root reached by `position ... moves` or `position` + `moves`): the book move must be answered; "
+              "non-trivial = distinct positions with an ep square or castling rights")
     c.assumptions = API_ASSUME + ["golden Random64 table extracted once from the pinned commit, pinned by the 9 official vectors "
                                   "and 3 published anchor constants (DESIGN.md C18 caveat)"]
+    # the key as the running engine uses it: a one-key book written for the root's spec key must be found, whichever way
+    # the session reached the root
+    _book_sessions(c, seed + 7, 32 if q else 400)
     for k in ["geo:ep:left", "geo:ep:right", "geo:ep:both", "geo:ep:none"]:
         c.require(k, 200)
+    c.require("keys-after-make-unmake", 20000)
+    c.require("uci-book-answers", 60)
+    c.require("uci-book-sessions:root-via-moves-command", 5)
     return c.finish()
 
 
@@ -207,7 +221,8 @@ def c11(tier, seed):
     c.counters["uci-cold-start-sessions"] = len(res)
     c.rule = ("EXHAUSTIVE: all 64 x 2^k subsets of the relevant blocker squares for bishop (5,248) and rook (102,400), each also with "
               "random garbage outside the mask; every entry of KNIGHT_MASK, KING_MASK, RAYS, LINES, FULL_LINES; shift<> in all ten "
-              "directions; plus random full occupancies and pawn/king set functions; plus fresh engine processes whose FIRST command is "
+              "directions; plus random full occupancies and pawn/king set functions; plus the attack relation as Position::is_in_check "
+              "consumes it (every attacker kind/colour/square x every king square, alone and with a blocker); plus fresh engine processes whose FIRST command is "
               "perft / moves / printboard / staticeval (no uci, isready or position before it), perft counts and boards compared with "
               "the oracle; non-trivial = squares")
     c.exhaustive = True
@@ -217,6 +232,8 @@ def c11(tier, seed):
     c.require("rook-subsets", need_r)
     c.require("bishop-subsets", 5248 * (1 if q else 2))
     c.require("leaper-line-table-entries", 8832)
+    c.require("attack-relation-cases", 40000)
+    c.require("attack-relation-cases:attacked", 6000)
     c.require("uci-cold-start-sessions", 20 if q else 200)
     c.require("uci-perft-counts-compared", 40 if q else 400)
     return c.finish()
@@ -226,7 +243,9 @@ def c12(tier, seed):
     q = tier == "quick"
     c = _split("C12", tier, seed, "rel" if q else "asan", "kpk_monitor", [])
     c.rule = ("EXHAUSTIVE: every legal K+P v K position (both pawn colours, both sides to move; 2 x 331,352) - bitbase::check after "
-              "normalize, endgame::score and PositionScorer::score classification vs the oracle's retrograde solution; "
+              "normalize, endgame::score and PositionScorer::score classification vs the oracle's retrograde solution; every 23rd "
+              "position also reached by a capture from a four-man ending (parent evaluated first), every 5th evaluated again right "
+              "after a KQK/KRK position of the same strong side (classification must not depend on what was evaluated before); "
               "non-trivial = every position")
     c.exhaustive = True
     c.assumptions = ["oracle/kpk.cpp retrograde solver over K+P+K, K+Q+K, K+R+K with the oracle move generator; fixed-point and "
@@ -234,6 +253,7 @@ def c12(tier, seed):
     c.require("kpk-positions", 662704)
     c.require("kpk-reached-by-capture:weak-king-takes-pawn", 3000)
     c.require("kpk-reached-by-capture:strong-king-takes-knight", 3000)
+    c.require("kpk-evaluated-after-another-endgame", 50000)
     return c.finish()
 
 
@@ -319,6 +339,30 @@ def c14(tier, seed):
 CHECKS.update({"C13": c13, "C14": c14})
 
 
+def _book_sessions(c, seed, n):
+    """UCI sessions with a generated one-key book: the answer must be a move the book allows for the root (reached by
+    `position ... moves`, or by `position` + the engine's `moves` command); after a switch to a recordless book a search runs."""
+    res = _uci("book", seed, n)
+    _uci_crashes(c, res)
+    for r_ in res:
+        for g in r_["gos"]:
+            c.evaluations += 1
+            c.counters["uci-book-answers"] = c.counters.get("uci-book-answers", 0) + 1
+            bm = [l.split()[1] for l in g["out"] if l.startswith("bestmove") and len(l.split()) > 1]
+            if not bm or bm[0] not in g["legal"]:
+                c.add_violation("uci-book:answer-not-allowed-by-book:" + r_["tag"].split(":")[1] +
+                                (":root-via-moves-command" if "root-via-moves-command" in r_["tag"] else ""),
+                                {"tag": r_["tag"], "fen": g["fen"], "answer": bm, "book_allows": g["legal"], "cmds": r_["cmds"][-5:]})
+            if "__search__" in g["sm"]:
+                c.counters["uci-book-switched-to-recordless-book"] = c.counters.get("uci-book-switched-to-recordless-book", 0) + 1
+                if not any(l.startswith("info") for l in g["out"]):
+                    c.add_violation("uci-book:stale-records-after-switch:" + r_["tag"].split(":")[-1],
+                                    {"tag": r_["tag"], "fen": g["fen"], "answer": bm, "cmds": r_["cmds"][-6:],
+                                     "note": "no search ran after the book was replaced by one without complete records"})
+    c.counters["uci-book-sessions:root-via-moves-command"] = sum(1 for r_ in res if "root-via-moves-command" in r_["tag"])
+    return res
+
+
 def c19(tier, seed):
     q = tier == "quick"
     exe = ensure_monitor("asan", "book_monitor")
@@ -340,24 +384,7 @@ def c19(tier, seed):
               "moves (castling as king-takes-rook, promotions) equal the oracle's; non-trivial = distinct files / (position, weight vector)")
     c.assumptions = ["keys with all weights zero are not sampled (the statement gives them no meaning)",
                      "7-sigma acceptance band: false-alarm probability < 1e-11 per test"]
-    res = _uci("book", seed + 4, 48 if q else 600)
-    _uci_crashes(c, res)
-    for r_ in res:
-        for g in r_["gos"]:
-            c.evaluations += 1
-            c.counters["uci-book-answers"] = c.counters.get("uci-book-answers", 0) + 1
-            bm = [l.split()[1] for l in g["out"] if l.startswith("bestmove") and len(l.split()) > 1]
-            if not bm or bm[0] not in g["legal"]:
-                c.add_violation("uci-book:answer-not-allowed-by-book:" + r_["tag"].split(":")[1] +
-                                (":root-via-moves-command" if "root-via-moves-command" in r_["tag"] else ""),
-                                {"tag": r_["tag"], "fen": g["fen"], "answer": bm, "book_allows": g["legal"], "cmds": r_["cmds"][-5:]})
-            if "__search__" in g["sm"]:
-                c.counters["uci-book-switched-to-recordless-book"] = c.counters.get("uci-book-switched-to-recordless-book", 0) + 1
-                if not any(l.startswith("info") for l in g["out"]):
-                    c.add_violation("uci-book:stale-records-after-switch:" + r_["tag"].split(":")[-1],
-                                    {"tag": r_["tag"], "fen": g["fen"], "answer": bm, "cmds": r_["cmds"][-6:],
-                                     "note": "no search ran after the book was replaced by one without complete records"})
-    c.counters["uci-book-sessions:root-via-moves-command"] = sum(1 for r_ in res if "root-via-moves-command" in r_["tag"])
+    _book_sessions(c, seed + 4, 48 if q else 600)
     c.require("uci-book-answers", 100)
     c.require("uci-book-sessions:root-via-moves-command", 5)
     c.require("uci-book-switched-to-recordless-book", 10)
